@@ -203,6 +203,7 @@ fn run_in_thread(family: Family, mode: Mode) -> RunOut {
         rt.block_on(
             async move {
                 match p2.role {
+                    Role::S5 | Role::S3 if p2.cfg.combined => crate::app_both::run_server(w2.clone(), p2.clone()).await,
                     Role::S5 => crate::app_v5::run_server(w2.clone(), p2.clone()).await,
                     Role::S3 => crate::app_v3::run_server(w2.clone(), p2.clone()).await,
                     Role::C5 => crate::app_v5::run_client(w2.clone(), p2.clone()).await,
